@@ -28,7 +28,9 @@ GCfgCache == {Cfg(ns, FALSE, FALSE, rna, c, 16, 8, <<S1>>, Dom, -1, FALSE) : ns 
 GCfgCache1 == {Cfg(1, FALSE, FALSE, rna, c, 16, 8, <<S1>>, Dom, -1, FALSE) : rna \in BOOLEAN, c \in {"simple", "lru"}}
 GCfgClass == {Cfg(1, FALSE, FALSE, TRUE, c, 16, 8, <<>>, RootName, -1, FALSE) : c \in {"simple", "lru"}}
 (* the resolver's servers are REAL dns.nameserver.Do53Nameserver objects over stubbed transports *)
-GCfgGlue == {[Cfg(2, rsf, tcp, TRUE, "none", 16, 8, <<>>, RootName, -1, FALSE) EXCEPT !.glue = "do53"] : rsf \in BOOLEAN, tcp \in BOOLEAN}
+(* "do53": one address per server; "do53port": all servers share one address and differ in the port *)
+GCfgGlue == {[Cfg(2, rsf, tcp, TRUE, "none", 16, 8, <<>>, RootName, -1, FALSE) EXCEPT !.glue = g] :
+                rsf \in BOOLEAN, tcp \in BOOLEAN, g \in {"do53", "do53port"}}
 GCfgClock == {Cfg(2, TRUE, FALSE, TRUE, "none", 16, 8, <<>>, RootName, -1, FALSE)}
 (* search-list / ndots shapes *)
 GCfgSearch == {Cfg(1, FALSE, FALSE, TRUE, "none", 16, 8, sl, dm, nd, usd) :
@@ -87,8 +89,10 @@ GInternal == /\ \/ NextRequest \/ RetryTcp \/ GiveUp \/ Rearm \/ Sleep(BackoffTa
 
 (* ---- resolve_name(name, family=AF_UNSPEC): AAAA lookup, then A lookup for the name the first settled on;
    each sub-lookup gets min(remaining lifetime, timeout) as its lifetime (that is what the method computes) *)
-GCfgName == {Cfg(1, FALSE, FALSE, FALSE, c, 32, 8, sl, Dom, -1, usd) : c \in {"none", "simple"}, sl \in {<<S1>>, <<S1, S2>>}, usd \in BOOLEAN}
-GCfgNameQ == {Cfg(1, FALSE, FALSE, FALSE, "simple", 32, 8, sl, Dom, -1, TRUE) : sl \in {<<S1>>, <<S1, S2>>}}
+GCfgName == {Cfg(1, FALSE, FALSE, FALSE, c, lf, 8, sl, Dom, -1, usd) : c \in {"none", "simple"}, lf \in {12, 32}, sl \in {<<S1>>, <<S1, S2>>}, usd \in BOOLEAN}
+(* lifetime 0.75 s < 2 x timeout 0.5 s: a reply that takes the whole timeout in the first lookup leaves the
+   second lookup less than a full timeout *)
+GCfgNameQ == {Cfg(1, FALSE, FALSE, FALSE, "simple", 12, 8, sl, Dom, -1, TRUE) : sl \in {<<S1>>, <<S1, S2>>}}
 GReqNameQ == {Req(<<"www">>, "none", 0, "AAAA", "IN")}
 GReqName == {Req(<<"www">>, sf, 0, "AAAA", "IN") : sf \in {"true", "none"}}
 GOutName(q, qt) == {Exc("Timeout"), Msg("SERVFAIL", <<>>, <<>>)} \cup PosSmall(q, qt) \cup NoDataSmall(q, qt) \cup NxSmall(q, qt)
